@@ -251,6 +251,10 @@ func GenEngineScript(r *Rng, o EngineGenOpts, hist map[string]int) []string {
 					add("mergei %s", spec)
 				}
 				hist["op_merge_racing"]++
+			} else if r.Chance(1, 4) {
+				// the same merge, probed by two more Merge calls while it runs: both must be refused
+				add("mergebusy")
+				hist["op_merge_probed_while_running"]++
 			} else {
 				add("merge")
 			}
